@@ -229,18 +229,6 @@ class MultiTypeMap(dict):
                 ]
                 if not rval:  # pragma: no cover
                     rval = list(candidates)
-                if len(rval) == 1 and not self.dependent[rval[0].handler]:
-                    # A winner must dominate every other candidate. When
-                    # subclassing is not transitive (virtual subclasses) the
-                    # only undominated candidate may be unrelated to some:
-                    # they share its rank, which is therefore ambiguous.
-                    # (Not for a value-dependent candidate: whether it takes
-                    # part at all is only known at call time.)
-                    rval += [
-                        c
-                        for c in candidates
-                        if c is not rval[0] and not rval[0].dominates(c)
-                    ]
                 yield rval
                 candidates = [
                     c for c in candidates if not any(c is r for r in rval)
@@ -386,29 +374,39 @@ class MultiTypeMap(dict):
             raise self.key_error(obj_t_tup, ())
 
         funcs = []
+        lower = []
         for group in reversed(results):
             handlers = [c.handler for c in group]
             dependent = any(self.dependent[c.handler] for c in group)
+            if len(group) == 1 and not dependent:
+                # A winner must dominate every other remaining candidate.
+                # When subclassing is not transitive (virtual subclasses) the
+                # only undominated candidate may be unrelated to one of a
+                # lower rank: choosing here is ambiguous. (The ranks stay as
+                # they are: the chain below continues normally.)
+                unrelated = [c for c in lower if not group[0].dominates(c)]
+                if unrelated:
+                    group = [*group, *unrelated]
+            lower = [*results[len(results) - len(funcs) - 1], *lower]
             if dependent:
                 below = funcs[-1] if funcs else None
                 if below is not None and below[0] is None:
                     # The rank below is ambiguous: falling through to it must
                     # raise that ambiguity, not the no-method error
-                    below_group = results[len(results) - len(funcs)]
-                    below = (self._raiser(obj_t_tup, below_group), below[1])
+                    below = (self._raiser(obj_t_tup, below[2]), below[1])
                 nxt = self.wrap_dependent(obj_t_tup, handlers, group, below)
             elif len(group) != 1:
                 nxt = None
             else:
                 nxt = handlers[0]
             codes = [h.__code__ for h in handlers if hasattr(h, "__code__")]
-            funcs.append((nxt, codes))
+            funcs.append((nxt, codes, group))
 
         funcs.reverse()
 
         writes = []
         parents = []
-        for group, (func, codes) in zip(results, funcs):
+        for func, codes, group in funcs:
             tups = (
                 [obj_t_tup]
                 if not parents
